@@ -22,6 +22,7 @@ type oracleFailure struct {
 	Input  interface{} `json:"input"`            // concrete failing input
 	Expect string      `json:"expect,omitempty"` // expected
 	Got    string      `json:"got,omitempty"`    // observed
+	NoInput bool       `json:"no_input,omitempty"` // a broken reading of the artefact rather than a failing input
 }
 
 type meta struct {
@@ -48,6 +49,20 @@ func (m *meta) count(key string) {
 
 func (m *meta) fail(f oracleFailure) { m.Failures = append(m.Failures, f) }
 
+// sampleErr keeps the first messages of inputs that were not usable (so that a wasted generator shows in the evidence)
+func (m *meta) sampleErr(msg string) {
+	if m.Extra == nil {
+		m.Extra = map[string]interface{}{}
+	}
+	l, _ := m.Extra["unusable_inputs"].([]string)
+	if len(l) < 6 {
+		if len(msg) > 300 {
+			msg = msg[:300]
+		}
+		m.Extra["unusable_inputs"] = append(l, msg)
+	}
+}
+
 func (m *meta) sample(x interface{}) {
 	if len(m.Samples) < 5 {
 		m.Samples = append(m.Samples, x)
@@ -61,6 +76,7 @@ type env struct {
 	replay string // optional replay path
 	m      *meta
 	r      *rng
+	detailFn string // optional: a Coq function of the cases whose value is printed for the replays
 }
 
 func (e *env) thorough() bool { return e.tier == "thorough" }
@@ -86,6 +102,9 @@ func (e *env) writeCases2(name string, header string, fn string, fnProp string, 
 	fmt.Fprintf(f, "\nDefinition bad := Eval vm_compute in %s cases.\nLocal Open Scope N_scope.\nPrint bad.\n", fn)
 	if fnProp != "" {
 		fmt.Fprintf(f, "\nDefinition bad_prop := Eval vm_compute in %s cases.\nPrint bad_prop.\n", fnProp)
+	}
+	if e.detailFn != "" {
+		fmt.Fprintf(f, "\nDefinition detail := Eval vm_compute in %s cases.\nPrint detail.\n", e.detailFn)
 	}
 	check(f.Close())
 	side, err := json.Marshal(inputs)
